@@ -289,13 +289,39 @@ pub fn run(cfg: &Cfg, seed: u64) -> (Arc<crate::world::World>, Vec<Obs>, crate::
             })
             .sum();
         sim.horizon = total + 10_000_000;
+        // a sibling breaker built by a second `layer()` call on the same layer value: it has its own
+        // circuit, so whatever happens to it (failures, force_open) must not show in the breaker under test
+        let sibling = seed % 3 == 0;
+        macro_rules! sibling_actor {
+            ($layer:expr) => {{
+                if sibling {
+                    let mut sib = $layer.layer(w.probe(2));
+                    let w3 = w.clone();
+                    let n_calls = 4 + (seed >> 8) % 24;
+                    let gap = 1000 * (1 + (seed >> 16) % 9);
+                    let b = sim.actor(1, move || {
+                        boxed(async move {
+                            for i in 0..n_calls {
+                                let req = Req::new(1_000_000 + i, 0, vec![Step { lat: Lat::Us(0), out: Out::Err(1) }]);
+                                let _ = crate::actors::do_call(&w3, &mut sib, req, false, &|e| map_err(e)).await;
+                                tokio::time::sleep(std::time::Duration::from_micros(gap)).await;
+                            }
+                            sib.force_open().await;
+                        })
+                    });
+                    sim.start_at(0, b);
+                }
+            }};
+        }
         let fut = if cfg.custom_classifier {
             let layer = configure!(base_builder(cfg), cfg).failure_classifier(custom_classify).build();
             let cb = layer.layer(w.probe(1));
+            sibling_actor!(layer);
             boxed(drive(cb, cfg2, w.clone(), obs2))
         } else {
             let layer = configure!(base_builder(cfg), cfg).build();
             let cb = layer.layer(w.probe(1));
+            sibling_actor!(layer);
             boxed(drive(cb, cfg2, w.clone(), obs2))
         };
         let a = sim.actor(0, move || fut);
